@@ -1,8 +1,362 @@
 import BarterModel.Lemmas.BinanceL2
+/-!
+# C06 — Binance L2 streams never leave a silently wrong local book
+
+Statements only (proofs by reference to `Lemmas/BinanceL2.lean`, `Lemmas/Book.lean`). The concrete
+model (`Sequencer.validateSequence`, `Transformer.transform`, `terminate`, `Conn.step`, composed
+with C05's `OrderBook.update`) is what `drv_c06 model` executes; the abstract side — the venue
+(`Venue`, `bookAt`), genuine messages (`Genuine`), the published chaining rule (`Stale`,
+`FirstRule`, `NextRule`, `Extends`, `Chain`) and the executable `SpecInstrument.step` / `specBook`
+— is what `drv_c06 spec` executes. `r : Rules` ranges over both rule sets (spot, USD-futures) in
+every theorem.
+
+Quantifiers: sequencer theorems hold for *all* message lists whatsoever (arbitrary ids and
+levels). Theorems that compare with the exchange's book assume what the property assumes — the
+delivered messages are genuine messages of the venue (`IsGenuine`: for *some* id range, so any
+drop / duplicate / swap / replay / early or late start of the venue's stream qualifies) and the
+REST snapshot is the venue's book at its id (`GenuineSnapshot`). The venue itself is an arbitrary
+list of changes (no hypothesis on ids is needed; `Venue.WF` only gives `bookAt` its reading as
+"the book after the event with id x").
+-/
 namespace BarterModel.Props.C06
 open BarterModel.Book BarterModel.BinanceL2
 
+/-! ## 1. the sequencer: stale ⇒ silently dropped; otherwise extends the chain or terminal error -/
+
+/-- **Trichotomy of `validate_sequence`** (every state, every message, both rule sets):
+* stale (`u ≤ last` spot / `u < last` futures) ⇒ dropped, state unchanged;
+* not stale and extending the chain (first: covers the snapshot id; later: follows the previous
+  `u`) ⇒ admitted, `updates_processed + 1`, `last_update_id = u`;
+* not stale and not extending ⇒ `InvalidSequence { prev_last_update_id: last, first_update_id: U }`,
+  state unchanged.
+The three guards are exclusive and exhaustive, so a message is *silently* dropped only if stale
+and the state advances only on success. -/
+theorem validate_sequence_trichotomy (r : Rules) (sq : Sequencer) (m : Update) :
+    (Stale r sq.lastUpdateId m ∧ sq.validateSequence r m = (sq, .dropped)) ∨
+    (¬ Stale r sq.lastUpdateId m ∧ Extends r (sq.updatesProcessed == 0) sq.lastUpdateId m ∧
+      sq.validateSequence r m =
+        ({ updatesProcessed := sq.updatesProcessed + 1, lastUpdateId := m.lastUpdateId,
+           prevLastUpdateId := match r with
+             | .spot => sq.lastUpdateId
+             | .futures => sq.prevLastUpdateId }, .valid m)) ∨
+    (¬ Stale r sq.lastUpdateId m ∧ ¬ Extends r (sq.updatesProcessed == 0) sq.lastUpdateId m ∧
+      sq.validateSequence r m = (sq, .error (.invalidSequence sq.lastUpdateId m.firstUpdateId))) :=
+  validate_cases r sq m
+
+/-- the only error the sequencer produces is terminal (`DataError::is_terminal`), and being
+terminal means being an `InvalidSequence` -/
+theorem sequencer_error_terminal (r : Rules) (sq : Sequencer) (m : Update) (e : DataError)
+    (h : (sq.validateSequence r m).2 = .error e) :
+    e.isTerminal = true ∧ (sq.validateSequence r m).1 = sq := by
+  rcases validate_cases r sq m with ⟨_, hv⟩ | ⟨_, _, hv⟩ | ⟨_, _, hv⟩ <;> rw [hv] at h ⊢ <;> simp at h
+  subst h; exact ⟨rfl, rfl⟩
+
 theorem terminal_iff (e : DataError) : e.isTerminal = true ↔ ∃ p f, e = .invalidSequence p f := by
   cases e <;> simp [DataError.isTerminal]
+
+/-- the executable spec step (`drv_c06 spec`) and the model's `validate_sequence` give the same
+verdict and the same ids, in every state -/
+theorem spec_step_agrees (r : Rules) (sq : Sequencer) (m : Update) :
+    let i : SpecInstrument := ⟨sq.updatesProcessed, sq.lastUpdateId⟩
+    let res := sq.validateSequence r m
+    ((i.step r m).2 = .ignored ↔ res.2 = .dropped) ∧
+    ((i.step r m).2 = .extended ↔ res.2 = .valid m) ∧
+    ((i.step r m).2 = .told ↔ ∃ e, res.2 = .error e) ∧
+    (i.step r m).1.processed = res.1.updatesProcessed ∧ (i.step r m).1.last = res.1.lastUpdateId := by
+  intro i res
+  rcases validate_cases r sq m with ⟨hs, hv⟩ | ⟨hs, he, hv⟩ | ⟨hs, he, hv⟩
+  · simp [i, res, hv, SpecInstrument.step, hs]
+  · simp [i, res, hv, SpecInstrument.step, hs, he, Sequencer.advance]
+  · simp [i, res, hv, SpecInstrument.step, hs, he]
+
+/-- **admitted_chain** — for *any* delivery whatsoever after a snapshot at `s` (even continuing
+past errors), the admitted updates form an unbroken chain under the venue's rule (spot: first
+`U ≤ s+1 ≤ u`, then `U = previous u + 1`; futures: first `U ≤ s ≤ u`, then `pu = previous u`);
+the sequencer has counted exactly them and reports the last admitted `u` (or `s`). -/
+theorem admitted_chain (r : Rules) (s : Nat) (ms : List Update) :
+    let res := Sequencer.run r (Sequencer.new s) ms
+    Chain r s (admitted res.2) ∧
+    res.1.updatesProcessed = (admitted res.2).length ∧
+    res.1.lastUpdateId = ((admitted res.2).getLast?.map (·.lastUpdateId)).getD s := by
+  intro res
+  have h1 := chain_of_run r (Sequencer.new s) ms rfl
+  have h2 := run_state r (Sequencer.new s) ms
+  refine ⟨h1, ?_, h2.2⟩
+  have := h2.1
+  simp only [Sequencer.new, Nat.zero_add] at this
+  exact this
+
+/-- the same from any later state: what is admitted from then on is linked to the current id -/
+theorem admitted_linked (r : Rules) (sq : Sequencer) (ms : List Update) (h : sq.updatesProcessed ≠ 0) :
+    Linked r sq.lastUpdateId (admitted (Sequencer.run r sq ms).2) := linked_of_run r sq ms h
+
+/-- no admitted update is stale with respect to the id the sequencer started from -/
+theorem admitted_not_stale (r : Rules) (sq : Sequencer) (ms : List Update) :
+    ∀ m ∈ admitted (Sequencer.run r sq ms).2, ¬ Stale r sq.lastUpdateId m :=
+  admitted_mem_not_stale r sq ms
+
+/-! ## 2. key lemma: a genuine message moves the exchange's book from any covered id to `hi` -/
+
+/-- **key_lemma** — if the local book denotes the exchange's book as of `x`, and `m` is a genuine
+message for `(lo, hi]` with `lo ≤ x ≤ hi`, then after `OrderBook::update` with the event built from
+`m` the local book denotes the exchange's book as of `hi` and reports `hi`. (Overlap `lo < x` is
+harmless: levels are absolute amounts.) -/
+theorem key_lemma (r : Rules) (v : Venue) (lo x hi : Nat) (m : Update) (b : OrderBook)
+    (h1 : lo ≤ x) (h2 : x ≤ hi) (hg : Genuine r v lo hi m) (hs : SortedBook b)
+    (hb : abs b.bids = bookAt v x .bids) (ha : abs b.asks = bookAt v x .asks) :
+    abs (b.update m.toEvent).bids = bookAt v hi .bids ∧
+    abs (b.update m.toEvent).asks = bookAt v hi .asks ∧
+    (b.update m.toEvent).sequence = hi := by
+  obtain ⟨hids, hgb, hga⟩ := hg
+  simp only [Update.toEvent, OrderBook.update, OrderBook.new]
+  refine ⟨?_, ?_, hids.2.1⟩
+  · rw [abs_upsert hs.bids, hb]
+    exact key_side v lo x hi .bids _ h1 h2 (genuineSide_perm (sortLevels_perm .bids m.bids).symm hgb)
+  · rw [abs_upsert hs.asks, ha]
+    exact key_side v lo x hi .asks _ h1 h2 (genuineSide_perm (sortLevels_perm .asks m.asks).symm hga)
+
+/-- the function-level core: any list of levels that states `bookAt hi` and covers the touched
+prices, in any order and with repetitions -/
+theorem key_lemma_side (v : Venue) (lo x hi : Nat) (side : Side) (levels : List Level)
+    (h1 : lo ≤ x) (h2 : x ≤ hi) (hg : GenuineSide v lo hi side levels) :
+    applyLevels (bookAt v x side) levels = bookAt v hi side := key_side v lo x hi side levels h1 h2 hg
+
+/-- a price not touched in `(x, hi]` has the same amount at `x` and at `hi` -/
+theorem untouched (v : Venue) (x hi : Nat) (side : Side) (p : Rat) (hx : x ≤ hi)
+    (hn : ¬ Touched v x hi side p) : bookAt v hi side p = bookAt v x side p :=
+  bookAt_untouched v x hi side p hx hn
+
+/-! ## 3. the book is the exchange's book at the sequence it reports — or the consumer is told -/
+
+/-- the initial local state: fresh sequencer at the snapshot id, the snapshot as book -/
+def start (s : Nat) (b0 : OrderBook) : Local := ⟨Sequencer.new s, b0⟩
+
+theorem start_synced (v : Venue) (s : Nat) (b0 : OrderBook) (hs : SortedBook b0)
+    (hg : GenuineSnapshot v s b0) : Synced v (start s b0) :=
+  ⟨hs, hg.1, by show abs b0.bids = bookAt v b0.sequence .bids; rw [hg.2.1, hg.1],
+    by show abs b0.asks = bookAt v b0.sequence .asks; rw [hg.2.2, hg.1]⟩
+
+/-- **book_is_truth** — for *every* delivery made of genuine messages of the venue (any
+sub-multiset in any order: drops, duplicates, swaps, replays of old prefixes, early or late start;
+the statement holds for every list, hence at every prefix), processed until the first error: the
+local book is strictly ordered, reports the sequencer's last id, and denotes exactly the
+exchange's book as of the sequence number it reports. If processing stopped early, the reason is a
+*terminal* error (`told = some e`, `e.is_terminal()`), which ends the connection
+(`with_termination_on_error`, theorem `stream_view` below) and forces re-initialisation. -/
+theorem book_is_truth (r : Rules) (v : Venue) (s : Nat) (b0 : OrderBook) (ms : List Update)
+    (hs : SortedBook b0) (h0 : GenuineSnapshot v s b0) (hg : ∀ m ∈ ms, IsGenuine r v m) :
+    let res := Local.run r (start s b0) ms
+    SortedBook res.1.book ∧
+    res.1.book.sequence = res.1.sequencer.lastUpdateId ∧
+    abs res.1.book.bids = bookAt v res.1.book.sequence .bids ∧
+    abs res.1.book.asks = bookAt v res.1.book.sequence .asks ∧
+    (∀ e, res.2 = some e → e.isTerminal = true) := by
+  intro res
+  have h := synced_run (r := r) (start_synced v s b0 hs h0) hg
+  exact ⟨h.sorted, h.seq, h.bids, h.asks, fun e he => local_run_told he⟩
+
+/-- … and with a snapshot free of zero amounts (C05's `WFBook`, what `OrderBook::new` yields for a
+venue snapshot) the book is *literally* the book computed from the venue's history by the
+executable specification (`specBook`, the value `drv_c06 spec` prints): same levels, same order,
+same sequence. -/
+theorem book_is_truth_exact (r : Rules) (v : Venue) (s : Nat) (b0 : OrderBook) (ms : List Update)
+    (hw : WFBook b0) (h0 : GenuineSnapshot v s b0) (hg : ∀ m ∈ ms, IsGenuine r v m) :
+    let res := Local.run r (start s b0) ms
+    res.1.book = specBook v res.1.book.sequence := by
+  intro res
+  have h := synced_run (r := r) (start_synced v s b0 hw.toSortedBook h0) hg
+  have hz := nonZero_run (r := r) (l := start s b0) (ms := ms) hw.bidsNonZero hw.asksNonZero
+  exact synced_eq_specBook h hz.1 hz.2
+
+/-- the invariant is inductive for single steps too (feeding on after an error changes nothing) -/
+theorem book_is_truth_step (r : Rules) (v : Venue) (l : Local) (m : Update) (hl : Synced v l)
+    (hg : IsGenuine r v m) : Synced v (l.step r m).1 := synced_step hl hg
+
+/-- `IsGenuine` is decidable through the range the message's own ids claim (used by `drv_c06 spec`) -/
+theorem isGenuine_iff (r : Rules) (v : Venue) (m : Update) (hU : 0 < m.firstUpdateId) :
+    IsGenuine r v m ↔ GenuineMsg r v m := by
+  constructor
+  · rintro ⟨lo, hi, hids, hb, ha⟩
+    obtain ⟨hlt, hu, hspot, hfut⟩ := hids
+    have hlo : m.lo r = lo := by
+      cases r
+      · have := hspot rfl; simp [Update.lo]; omega
+      · exact (hfut rfl).1
+    unfold GenuineMsg
+    rw [hlo, hu]
+    exact ⟨⟨hlt, hu, hspot, hfut⟩, hb, ha⟩
+  · intro h; exact ⟨_, _, h⟩
+
+/-! ## 4. no false alarm -/
+
+/-- **no_false_alarm** — a delivery consisting of any number of strictly older messages (stale
+with respect to the snapshot id, in any order, genuine or not) followed by a gap-free in-order run
+of genuine messages whose first one covers the snapshot point emits no error: every message of the
+run is admitted, the sequencer ends at the last `u`, and the book is the exchange's book at that
+id. -/
+theorem no_false_alarm (r : Rules) (v : Venue) (s c0 : Nat) (b0 : OrderBook) (old run : List Update)
+    (hs : SortedBook b0) (h0 : GenuineSnapshot v s b0)
+    (hold : ∀ m ∈ old, Stale r s m) (hrun : GenuineRun r v c0 run) (hcov : Covers r v s c0 run) :
+    let res := Local.run r (start s b0) (old ++ run)
+    let last := (run.getLast?.map (·.lastUpdateId)).getD s
+    res.2 = none ∧
+    res.1.sequencer.updatesProcessed = run.length ∧
+    res.1.sequencer.lastUpdateId = last ∧
+    res.1.book.sequence = last ∧
+    abs res.1.book.bids = bookAt v last .bids ∧ abs res.1.book.asks = bookAt v last .asks := by
+  intro res last
+  have hrun' : Local.run r (start s b0) (old ++ run) = (Local.admitAll r (start s b0) run, none) := by
+    rw [run_stale_prefix old run (by simpa [start, Sequencer.new] using hold)]
+    exact run_covering (l := start s b0) rfl (by simpa [start, Sequencer.new] using hcov) hrun
+  have hst := admitAll_state r (start s b0) run
+  -- the book: synced along the admitted run
+  have hsync : Synced v (Local.run r (start s b0) run).1 :=
+    synced_run (r := r) (start_synced v s b0 hs h0) (genuineRun_mem hrun)
+  have hrun2 : Local.run r (start s b0) run = (Local.admitAll r (start s b0) run, none) :=
+    run_covering (l := start s b0) rfl (by simpa [start, Sequencer.new] using hcov) hrun
+  rw [hrun2] at hsync
+  have hl : (Local.admitAll r (start s b0) run).sequencer.lastUpdateId = last := by
+    simpa [start, Sequencer.new, last] using hst.2
+  have hseq : (Local.admitAll r (start s b0) run).book.sequence = last := hsync.seq.trans hl
+  rw [show res = _ from hrun']
+  refine ⟨rfl, by simpa [start, Sequencer.new] using hst.1, hl, hseq, ?_, ?_⟩
+  · rw [← hseq]; exact hsync.bids
+  · rw [← hseq]; exact hsync.asks
+
+/-! ## 5. several instruments on one connection -/
+
+/-- **independent_instruments (a)** — a message of subscription `m.sub` never changes the
+sequencer (or key) of another subscription -/
+theorem other_sequencer_untouched (r : Rules) (t : Transformer) (m : Update) (b : Nat) (hb : b ≠ m.sub) :
+    (t.transform r m).1.instrumentMap.lookup b = t.instrumentMap.lookup b := transform_other r t m b hb
+
+/-- **(b)** — a message for a subscription id that is not in the map yields exactly one
+non-terminal `Unidentifiable` error and changes nothing -/
+theorem unknown_subscription (r : Rules) (t : Transformer) (m : Update)
+    (h : t.instrumentMap.lookup m.sub = none) :
+    t.transform r m = (t, [.error (.unidentifiable m.sub)]) ∧
+    (DataError.unidentifiable m.sub).isTerminal = false := ⟨transform_unknown h, rfl⟩
+
+/-- **(c)** — `transform` for a subscribed instrument is that instrument's sequencer: nothing /
+one `Update` event for the instrument's key carrying `OrderBook::new(u, bids, asks)` / the error -/
+theorem transform_is_sequencer (r : Rules) (t : Transformer) (m : Update) (im : Meta)
+    (h : t.instrumentMap.lookup m.sub = some im) :
+    (t.transform r m).1.instrumentMap.lookup m.sub =
+      some { im with sequencer := (im.sequencer.validateSequence r m).1 } ∧
+    (t.transform r m).2 =
+      match (im.sequencer.validateSequence r m).2 with
+      | .dropped => []
+      | .valid u => [.event im.key u.toEvent]
+      | .error e => [.error e] := by
+  rcases transform_known (r := r) h with ⟨hs, hv⟩ | ⟨hs, he, hv⟩ | ⟨hs, he, hv⟩
+  · rw [hv, validate_stale hs]; simp [lookup_setSequencer, h]
+  · rw [hv, validate_extends hs he]; simp [lookup_setSequencer, h]
+  · rw [hv, validate_breaks hs he]; simp [lookup_setSequencer, h]
+
+/-- **(d)** — on the consumer's side an event for key `k` changes the book of `k` only -/
+theorem other_book_untouched (books : Books) (k : Nat) (ev : Event) (k' : Nat) (hk : k' ≠ k) :
+    (managerStep books (.item k ev)).lookup k' = books.lookup k' := by
+  rw [lookup_managerStep]; simp [hk]
+
+/-- a live connection dies exactly on a subscribed, non-stale, non-extending message -/
+theorem told_iff (r : Rules) (c : Conn) (m : Update) (h : c.alive = true) :
+    (c.step r m).alive = false ↔
+      ∃ im, c.transformer.instrumentMap.lookup m.sub = some im ∧
+        ¬ Stale r im.sequencer.lastUpdateId m ∧
+        ¬ Extends r (im.sequencer.updatesProcessed == 0) im.sequencer.lastUpdateId m := by
+  rcases conn_step_cases r c m h with ⟨hn, hv⟩ | ⟨im, hl, hcase⟩
+  · rw [hv]; simp [h, hn]
+  · rcases hcase with ⟨hs, hv⟩ | ⟨hs, he, hv⟩ | ⟨hs, he, hv⟩
+    · rw [hv]; simp [hl, hs]
+    · rw [hv]; simp [hl, hs, he]
+    · rw [hv]; simp [hl, hs, he]
+
+/-- **book_is_truth for the whole connection** — several instruments on one connection, messages
+of all of them interleaved arbitrarily (each genuine for its own instrument's venue; messages for
+unknown subscriptions are unrestricted): as long as the invariant holds at the start it holds after
+any delivery — every subscribed instrument's book is the exchange's book of *that* instrument at
+the sequence it reports, and equals its sequencer's last id. (After the connection died the books
+are frozen in that state and the consumer has been told.) -/
+theorem connection_book_is_truth (r : Rules) (venues : Nat → Venue) (c : Conn) (ms : List Update)
+    (hc : ConnSynced venues c)
+    (hg : ∀ m ∈ ms, (c.transformer.instrumentMap.lookup m.sub).isSome → IsGenuine r (venues m.sub) m) :
+    ConnSynced venues (c.run r ms) := by
+  induction ms generalizing c with
+  | nil => exact hc
+  | cons m ms ih =>
+    simp only [Conn.run, List.foldl_cons]
+    have hsub : ∀ a, ((c.step r m).transformer.instrumentMap.lookup a).isSome =
+        (c.transformer.instrumentMap.lookup a).isSome := by
+      intro a
+      cases halive : c.alive with
+      | false => rw [conn_step_dead m halive]
+      | true =>
+        rcases conn_step_cases r c m halive with ⟨_, hv⟩ | ⟨im, hl, hcase⟩
+        · rw [hv]
+        · rcases hcase with ⟨_, hv⟩ | ⟨_, _, hv⟩ | ⟨_, _, hv⟩ <;> rw [hv] <;>
+            simp only [lookup_setSequencer] <;> split <;> simp_all
+    refine ih _ (connSynced_step hc (fun im him => hg m (by simp) (by simp [him]))) ?_
+    intro x hx hsome
+    exact hg x (by simp [hx]) (by rw [← hsub]; exact hsome)
+
+/-- **stream_view** — the per-message view of the connection (`Conn.step`: stop reading at the
+terminal error) is the whole output list of the transformer pushed through
+`with_termination_on_error` (`terminate`, a `map_while`) and applied by the consumer. -/
+theorem stream_view (r : Rules) (c : Conn) (ms : List Update) (h : c.alive = true) :
+    (c.run r ms).books = consume c.books (terminate (Transformer.run r c.transformer ms).2) ∧
+    (c.run r ms).alive = !terminated (Transformer.run r c.transformer ms).2 :=
+  conn_run_eq_terminate r c ms h
+
+/-- nothing after the first terminal error is delivered, everything before it is -/
+theorem terminate_spec (a : List Out) (e : DataError) (b : List Out) (he : e.isTerminal = true)
+    (ha : terminated a = false) : terminate (a ++ .error e :: b) = a := by
+  rw [terminate_append, ha]
+  simp only [cond_false, terminate, he, ↓reduceIte, List.append_nil]
+  clear he
+  induction a with
+  | nil => rfl
+  | cons x xs ih =>
+    cases x with
+    | event k ev => simp only [terminated] at ha; simp [terminate, ih ha]
+    | error e' =>
+      simp only [terminated, Bool.or_eq_false_iff] at ha
+      simp [terminate, ha.1, ih ha.2]
+
+/-! ## non-vacuity: a concrete venue, snapshot and deliveries -/
+
+/-- three changes: bid 100 ↦ 1 (id 1), ask 101 ↦ 2 (id 2), bid 100 deleted (id 3) -/
+def exVenue : Venue := [⟨1, .bids, 100, 1⟩, ⟨2, .asks, 101, 2⟩, ⟨3, .bids, 100, 0⟩]
+
+def exSnapshot : OrderBook := ⟨1, [⟨100, 1⟩], []⟩
+
+/-- spot messages for `(0,2]` and `(2,3]`; futures for `(0,2]` (`U = 1`) and `(2,3]` -/
+def exM1 : Update := ⟨0, 1, 2, 0, [⟨100, 1⟩], [⟨101, 2⟩]⟩
+def exM2 : Update := ⟨0, 3, 3, 2, [⟨100, 0⟩], []⟩
+
+example : Genuine .spot exVenue 0 2 exM1 := by decide
+example : Genuine .spot exVenue 2 3 exM2 := by decide
+example : Genuine .futures exVenue 0 2 exM1 := by decide
+example : Genuine .futures exVenue 2 3 exM2 := by decide
+example : GenuineRun .spot exVenue 0 [exM1, exM2] := ⟨by decide, by decide, trivial⟩
+example : Covers .spot exVenue 1 0 [exM1, exM2] := ⟨by decide, by decide⟩
+example : Covers .futures exVenue 1 0 [exM1, exM2] := ⟨by decide, by decide, ⟨1, .bids, 100, 1⟩, by decide, rfl⟩
+example : Venue.WF exVenue := by unfold Venue.WF; decide
+example : SortedBook exSnapshot := ⟨by decide, by decide⟩
+
+example : GenuineSnapshot exVenue 1 exSnapshot := by
+  refine ⟨rfl, ?_, ?_⟩ <;> funext p <;>
+    simp [exSnapshot, exVenue, abs, bookAt, changesUpTo, applyLevels, setLevel] <;> grind
+
+/-- the in-order delivery is admitted entirely (both rule sets) … -/
+example : (Local.run .spot (start 1 exSnapshot) [exM1, exM2]).2 = none := by decide
+example : (Local.run .futures (start 1 exSnapshot) [exM1, exM2]).2 = none := by decide
+example : (Local.run .spot (start 1 exSnapshot) [exM1, exM2]).1.book = ⟨3, [], [⟨101, 2⟩]⟩ := by decide +kernel
+/-- … dropping the first message is reported as a terminal error (the hypotheses of the
+trichotomy's third case are satisfiable) … -/
+example : (Local.run .spot (start 1 exSnapshot) [exM2]).2 = some (.invalidSequence 1 3) := by decide
+example : (Local.run .futures (start 1 exSnapshot) [exM2]).2 = some (.invalidSequence 1 3) := by decide
+/-- … and a duplicate is silently dropped by the spot rule but reported by the futures rule -/
+example : (Local.run .spot (start 1 exSnapshot) [exM1, exM1, exM2]).2 = none := by decide
+example : (Local.run .futures (start 1 exSnapshot) [exM1, exM1, exM2]).2 = some (.invalidSequence 2 1) := by decide
 
 end BarterModel.Props.C06
